@@ -269,7 +269,10 @@ theorem noOv_moveOut {c : Cfg} {fs0 : FS} (hwf : c.WF) (io : Nat → Fault) (st 
   unfold moveOut
   by_cases hfree : (st.fs.get { st.outPath with out := true }).isNone = true
   · simp only [hfree, if_true]
-    exact noOv_renameP io st _ h hho hwd (by simpa using hfree)
+    have h2 := noOv_renameP io st _ h hho hwd (by simpa using hfree)
+    by_cases hcc : c.closeClears = true
+    · rw [if_pos hcc]; exact noOv_clearOut _ h2
+    · rw [if_neg hcc]; exact h2
   · simp only [hfree]
     have hrev : c.hasRev = true := by
       cases hwf with
